@@ -130,6 +130,14 @@ _w(
     W("twin-quote-literals", [(_IP, "create_with_invariant_culture(\"uuuu-MM-ddTHH:mm:ss'Z'\")", "create_with_invariant_culture(\"uuuu'-'MM'-'dd'T'HH:mm:ss'Z'\")")], (), "same pattern with the literals quoted"),
 )
 
+_w(
+    "C02",
+    W("coptic-epoch-shifted", [("pyoda_time/calendars/_coptic_year_month_day_calculator.py", "super().__init__(1, 9715, -615558)", "super().__init__(1, 9715, -615557)")], ("R02.1",), "every Coptic date one day late; self-consistent, so invisible to C01"),
+    W("gregorian-century-rule", [("pyoda_time/calendars/_gregorian_year_month_day_calculator.py", "return ((year & 3) == 0) and ((year % 100) != 0 or (year % 400) == 0)", "return ((year & 3) == 0) and ((year % 100) != 0 or (year % 200) == 0)")], ("R02.2",), "1800 / 2200 become leap years"),
+    W("islamic-pattern-bit", [("pyoda_time/calendars/_islamic_year_month_day_calculator.py", "return 623158436  # 0b100101001001001010010010100100", "return 623158420  # 0b100101001001001010010010010100")], ("R02.2",), "one leap year of the Base15 pattern moved"),
+    W("weekday-anchor", [("pyoda_time/_calendar_system.py", "1 + _csharp_modulo(days_since_epoch + 3, 7)", "1 + _csharp_modulo(days_since_epoch + 4, 7)")], ("R02.4",), "1970-01-01 reported as a Friday"),
+)
+
 # ------------------------------------------------------------------------------------------- engine
 
 
